@@ -280,6 +280,9 @@ func genOp(t *rapid.T, p Profile, w map[string]int, i, nlogs, nb, nwk int) Op {
 		op.Cp.MinSize = 0 // explicitly allowed to create/refresh a size-0 checkpoint
 		op.Cp.Size = SizeSpec{Rel: "cur", N: 0}
 		op.Proof.Kind = "empty"
+		if Pct(t, p.Decorate, "zerodeco") {
+			op.Cp.Ext, op.Cp.Extra = genExtra(t, p, nlogs, nwk)
+		}
 	case "refresh":
 		op.Cp.Size = SizeSpec{Rel: "cur"}
 		op.Proof.Kind = "empty"
